@@ -10,6 +10,7 @@ Records added to the TapEnvironment log (G = global action number, st = kernel s
 """
 from .core import san
 from .tap import TapEnvironment, EmptySchedule, StopSimulation
+from onl.packet import Packet
 from onl.sim import (Interrupt, Resource, PriorityResource, PreemptiveResource, Container, Store, PriorityStore,
                      FilterStore, PriorityItem)
 
@@ -97,6 +98,8 @@ class RWorld:
 
 
 def item_uid(x):
+    if isinstance(x, Packet):
+        return ('PKT', x.src, x.payload)
     if isinstance(x, PriorityItem):
         return ('PI', san(x.priority), san(x.item))
     return san(x)
@@ -104,6 +107,10 @@ def item_uid(x):
 
 def mk_item(spec):
     if isinstance(spec, dict):
+        if spec.get('pkt'):
+            # a Packet as store item; several packets may carry the same (src, flow, id) - they are still distinct items
+            src, flow, pid = spec['ids']
+            return Packet(0.0, 100, pid, src=src, flow_id=flow, payload=spec['u'])
         if spec.get('pi'):
             return PriorityItem(spec['p'], spec['u'])
         return (spec['p'], spec['u'])
@@ -118,7 +125,10 @@ def mk_filter(f):
     if f == 'none':
         return lambda item: False
     col = f
-    return lambda item: isinstance(item, tuple) and item[0] == col
+    if isinstance(f, list):
+        # matches one particular packet (by its unique payload)
+        return lambda item, u=f[1]: isinstance(item, Packet) and item.payload == u
+    return lambda item: (isinstance(item, tuple) and item[0] == col) or (isinstance(item, Packet) and item.src == col)
 
 
 def describe_cause(w, cause):
@@ -393,10 +403,16 @@ def gen_store_case(rng, tier):
         init = rng.choice([0, 0, 1, 3, cap or 6])
         if cap is not None:
             init = min(init, cap)
-        amounts = rng.choice([[1, 2, 3, 5], [1, 1, 2], [0.5, 1, 2.5, 4], [2, 3, 8]])
+        amounts = rng.choice([[1, 2, 3, 5], [1, 1, 2], [0.5, 1, 2.5, 4], [2, 3, 8],
+                              [2.0 ** -32, 3 * 2.0 ** -32, 2.0 ** -30]])
+        if amounts[0] < 1e-6:
+            cap = rng.choice([None, 2.0 ** -28, 2.0 ** -29])
+            init = 0
     else:
         cap = rng.choice([None, 1, 2, 3, 4])
         init = 0
+    pkt_items = kind == 'FilterStore' and rng.random() < 0.35
+    made_pkts = []
     procs = []
     for p in range(nprocs):
         ops = []
@@ -414,12 +430,18 @@ def gen_store_case(rng, tier):
             elif isput:
                 if kind == 'PriorityStore':
                     op['item'] = {'pi': rng.random() < 0.5, 'p': rng.choice([0, 1, 1, 2, 3, 5]), 'u': nu()}
+                elif kind == 'FilterStore' and pkt_items:
+                    u = nu()
+                    op['item'] = {'pkt': True, 'ids': [rng.choice(['r', 'g', 'b']), rng.randint(0, 1), rng.randint(1, 2)], 'u': u}
+                    made_pkts.append(u)
                 elif kind == 'FilterStore':
                     op['item'] = [rng.choice(['r', 'g', 'b']), nu()]
                 else:
                     op['item'] = nu()
             elif kind == 'FilterStore':
                 op['filter'] = rng.choice(['any', 'r', 'g', 'b', 'r', 'none'])
+                if pkt_items and made_pkts and rng.random() < 0.5:
+                    op['filter'] = ['u', rng.choice(made_pkts)]
             ops.append(op)
         procs.append({'id': 'u%d' % p, 'ops': ops})
     if kind == 'Store' and rng.random() < 0.3:
